@@ -110,7 +110,8 @@ fn check_one_desc(rep: &Report, prop: Prop, c: &DescCase, thorough: bool, cen: &
     let ws = worlds(&c.keys, &hl, &c.afters, &c.olders, thorough);
     let dsx = c.d.sexpr();
     // taproot signatures with an explicit sighash byte are one byte longer: C09 measures both kinds
-    let sig_kinds: &[bool] = if prop == Prop::C09 && matches!(c.d, D::Tr(..)) { &[false, true] } else { &[false] };
+    // (C09 is about upper bounds: the longer signature kind dominates the shorter one)
+    let sig_kinds: &[bool] = if prop == Prop::C09 && matches!(c.d, D::Tr(..)) { &[true] } else { &[false] };
     for (w, schnorr_all) in ws.iter().flat_map(|w| sig_kinds.iter().map(move |s| (w, *s))) {
         let spend = make_spend(c.spk.clone(), w.locktime, w.sequence);
         let sat = WorldSat { world: w, spend: &spend, sign: &c.sign, schnorr_all, lie_locks: false, cap: crate::world::SignCap::All };
@@ -177,6 +178,9 @@ fn check_one_desc(rep: &Report, prop: Prop, c: &DescCase, thorough: bool, cen: &
                             continue;
                         }
                         let s = witness_exists(c, w, &spend, 400_000);
+                        if std::env::var("MSVERIF_TOP").is_ok() && s.states > 20_000 {
+                            eprintln!("TOP {} {} {}", s.states, dsx, w.short());
+                        }
                         bump_n(cen, "rsm_states", s.states);
                         bump_n(cen, "rsm_transitions", s.transitions);
                         if s.capped {
@@ -522,6 +526,10 @@ fn frag_check<Ctx: Cx>(
                 let spend = make_spend(spk.clone(), w.locktime, w.sequence);
                 let sat = WorldSat { world: &w, spend: &spend, sign: &sign, schnorr_all: false, lie_locks: false, cap: crate::world::SignCap::All };
                 let public_only = w.sigs.is_empty() && w.pre.is_empty();
+                if prop == Prop::C02 && !public_only {
+                    // the node-level claim of C02 is about dissatisfactions from public data only
+                    continue;
+                }
                 for mall in [false, true] {
                     bump(&mut cen, "frag_evaluations");
                     let mode = if mall { "mall" } else { "nonmall" };
@@ -769,7 +777,7 @@ pub fn run(prop: Prop, tier: Tier) -> i32 {
     let b = bounds(prop, tier);
     let thorough = tier == Tier::Thorough;
     let u = universe(b.n_seg.max(b.n_frag), b.n_leg.max(b.n_frag), b.n_tap.max(b.n_frag), b.alpha);
-    let models = crate::sat::descriptor_models_ctx(&u, b.n_seg, b.n_shwsh, b.n_leg, b.n_tap, b.n_part, if prop == Prop::C02 { b.n_seg - 2 } else { b.n_seg - 1 });
+    let models = crate::sat::descriptor_models_ctx(&u, b.n_seg, b.n_shwsh, b.n_leg, b.n_tap, b.n_part, b.n_seg - 1);
     rep.extra(
         "bounds",
         json!({"nodes": {"wsh": b.n_seg, "sh-wsh": b.n_shwsh, "sh": b.n_leg, "tr": b.n_tap, "fragments(H1)": b.n_frag},
@@ -793,6 +801,19 @@ pub fn run(prop: Prop, tier: Tier) -> i32 {
             for form in forms {
                 match guard(|| prepare(d, *form)) {
                     Ok(Ok(c)) => {
+                        if prop == Prop::C02 && !thorough {
+                            let wide_thresh = |t: &T| matches!(t, T::Thresh(_, v) if v.len() >= 4) || matches!(t, T::Multi(_, ks) | T::SortedMulti(_, ks) | T::MultiA(_, ks) | T::SortedMultiA(_, ks) if ks.len() >= 4);
+                            let skip = match &c.d {
+                                D::Wsh(t) | D::Sh(t) | D::ShWsh(t) => wide_thresh(t),
+                                D::Tr(_, l) => l.iter().any(|x| wide_thresh(&x.1)),
+                                _ => false,
+                            };
+                            if skip {
+                                // thresholds / multisigs of 4 and more children: their refusals cost the most witness search; thorough tier
+                                bump(&mut cen, "wide_thresholds_left_to_thorough");
+                                continue;
+                            }
+                        }
                         if prop == Prop::C02 && c.keys.len() > 6 {
                             // wide multisigs: the witness-existence search does not scale; C01 / C09 / C13 / C17 cover them
                             bump(&mut cen, "wide_descriptors_skipped");
